@@ -75,12 +75,14 @@ type verifMRStep struct {
 	Op string `json:"op"` // gen | map | red | ctx | hook
 	A  string `json:"a"`
 	I  int    `json:"i"`
+	E  int    `json:"e"` // cancel: the error identity the model chose (MR.tla "error domain")
 	Pt string `json:"pt"`
 }
 
 type verifMRSchedule struct {
 	Api     string        `json:"api"`
-	Workers int           `json:"workers"`
+	Wset    bool          `json:"wset"`    // WithWorkers(Workers) is passed
+	Workers int           `json:"workers"` // the raw option value (0 and negative counts included)
 	Ctx     bool          `json:"ctx"`
 	Hook    bool          `json:"hook"`
 	Steps   []verifMRStep `json:"steps"`
@@ -114,14 +116,14 @@ func (c *verifMRCall) dispatch(s verifMRStep) {
 		return
 	}
 	select {
-	case a.cmd <- verifMROp{A: s.A}:
+	case a.cmd <- verifMROp{A: s.A, E: s.E}:
 	default:
 		c.skipped++
 	}
 }
 
 func verifMRRunSchedule(t *testing.T, em *verifEmitter, in verifMRSchedule) {
-	c := newVerifMRCall(t, em, in.Api, in.Workers, in.Ctx)
+	c := newVerifMRCall(t, em, in.Api, in.Wset, in.Workers, in.Ctx)
 	c.steer = true
 	c.hookOn = in.Hook
 	if in.Hook {
@@ -160,7 +162,7 @@ func TestVerifMRReplay(t *testing.T) {
 		verifMRRunSchedule(t, em, in)
 		ran++
 	}
-	em.Emit(verifEv{"e": "reset", "api": "foreach", "workers": 1, "call": "none"})
+	em.Emit(verifEv{"e": "reset", "api": "foreach", "wset": true, "wopt": 1, "defw": defaultWorkers, "call": "none"})
 	em.Emit(verifEv{"e": "info", "hook": hookOK, "hookSkipped": skipped, "ran": ran})
 }
 
@@ -202,6 +204,9 @@ func (p *verifMRPlan) pert(rnd interface{ Intn(int) int }) []verifMROp {
 func (p *verifMRPlan) script(rnd interface{ Intn(int) int }, name string, item int) []verifMROp {
 	var s []verifMROp
 	add := func(a string, e int) { s = append(s, p.pert(rnd)...); s = append(s, verifMROp{A: a, E: e}) }
+	if p.stalls["1:"+name] {
+		s = append(s, verifMROp{A: "stall1"})
+	}
 	if p.stalls[name] {
 		s = append(s, verifMROp{A: "stall"})
 	}
@@ -300,7 +305,8 @@ func TestVerifMRLateCaller(t *testing.T) {
 	runs := verifEnvInt("VERIF_MR_RUNS", 20000)
 	apis := []string{"void", "mr", "foreach", "chan", "finish", "finishvoid"}
 	for r := 0; r < runs && atomic.LoadInt32(&verifMRStuckCalls) < verifMRMaxStuck; r++ {
-		p := &verifMRPlan{api: apis[r%6], stalls: map[string]bool{}, workers: 1 + r%3}
+		// worker counts over the option's whole domain: below 1 means one worker
+		p := &verifMRPlan{api: apis[r%6], stalls: map[string]bool{}, workers: []int{1, 2, 3, 0, -1, 2, 1, -1 << 30}[(r/24)%8]}
 		kind := (r / 6) % 4
 		fin := p.api == "finish" || p.api == "finishvoid"
 		if fin {
@@ -322,7 +328,7 @@ func TestVerifMRLateCaller(t *testing.T) {
 				p.panicBy, p.panicAt = -1, 0
 			}
 		}
-		c := newVerifMRCall(t, em, p.api, p.workers, useCtx)
+		c := newVerifMRCall(t, em, p.api, true, p.workers, useCtx)
 		c.nitems = p.nitems
 		c.plan = func(name string, it int) []verifMROp { return p.script(rand.New(rand.NewSource(int64(r))), name, it) }
 		if useCtx {
@@ -343,7 +349,10 @@ func TestVerifMRStress(t *testing.T) {
 	apis := []string{"mr", "mr", "void", "chan", "foreach", "mr", "finish", "finishvoid", "void", "mr"}
 	for r := 0; r < runs && atomic.LoadInt32(&verifMRStuckCalls) < verifMRMaxStuck; r++ {
 		p := &verifMRPlan{api: apis[r%len(apis)], stalls: map[string]bool{}}
-		p.workers = []int{1, 2, 2, 3, 4, 0, -1, 8}[rnd.Intn(8)]
+		// the worker option over its whole domain: not given, 1, n, more than the items, 0, negative (below 1 = one worker)
+		wi := rnd.Intn(12)
+		p.workers = []int{1, 2, 2, 3, 4, 0, -1, 8, 0, 0, -7, -1 << 30}[wi]
+		wset := wi != 5
 		p.nitems = []int{0, 1, 2, 3, 4, 5, 7, 9, 12, 20, 40}[rnd.Intn(11)]
 		p.fanout = rnd.Intn(4)
 		p.redMode = []int{0, 0, 0, 1, 2, 3, 4}[rnd.Intn(7)]
@@ -351,8 +360,15 @@ func TestVerifMRStress(t *testing.T) {
 		p.yield = rnd.Intn(3)
 		fin := p.api == "finish" || p.api == "finishvoid"
 		if fin {
-			p.nitems = 1 + rnd.Intn(6)
-			p.workers = 0
+			p.nitems = rnd.Intn(7) // the worker count of Finish/FinishVoid is the number of functions: 0, 1, n
+			p.workers, wset = 0, false
+		}
+		// the error passed to cancel: nil, ordinary values, and the unusual-but-legal members of the domain
+		errPick := func() int {
+			if rnd.Intn(2) == 0 {
+				return rnd.Intn(4)
+			}
+			return []int{7001, 7001, 7002, 7003, 7004, 7100, 7150, 7200, verifMRCtxErr, verifMRCtxCanceled}[rnd.Intn(10)]
 		}
 		useCtx := !fin && rnd.Intn(3) == 0
 		item := func() int {
@@ -362,12 +378,12 @@ func TestVerifMRStress(t *testing.T) {
 			return 1 + rnd.Intn(p.nitems)
 		}
 		// fault scenario
-		switch sc := rnd.Intn(12); sc {
+		switch sc := rnd.Intn(14); sc {
 		case 0, 1, 2: // none
 		case 3: // a mapper cancels
-			p.cancelBy, p.cancelE, p.cancelAt = item(), rnd.Intn(4), rnd.Intn(2)
+			p.cancelBy, p.cancelE, p.cancelAt = item(), errPick(), rnd.Intn(2)
 		case 4: // the reducer cancels
-			p.cancelBy, p.cancelE, p.cancelAt = -1, rnd.Intn(4), rnd.Intn(3)
+			p.cancelBy, p.cancelE, p.cancelAt = -1, errPick(), rnd.Intn(3)
 		case 5: // a mapper panics
 			p.panicBy, p.panicAt = item(), rnd.Intn(2)
 		case 6: // the reducer panics (possibly after having written)
@@ -378,23 +394,58 @@ func TestVerifMRStress(t *testing.T) {
 		case 7: // the generator panics
 			p.panicBy, p.panicAt = -2, rnd.Intn(p.nitems+1)
 		case 8: // cancel, then a panic somewhere else
-			p.cancelBy, p.cancelE, p.cancelAt = item(), rnd.Intn(4), rnd.Intn(2)
+			p.cancelBy, p.cancelE, p.cancelAt = item(), errPick(), rnd.Intn(2)
 			p.panicBy, p.panicAt = []int{item(), -1, -2}[rnd.Intn(3)], rnd.Intn(2)
 			if p.panicBy == p.cancelBy {
 				p.panicAt = 1
 			}
 		case 9: // two cancels / two panics
-			p.cancelBy, p.cancel2, p.cancelE, p.cancelAt = item(), item(), rnd.Intn(4), rnd.Intn(2)
+			p.cancelBy, p.cancel2, p.cancelE, p.cancelAt = item(), item(), errPick(), rnd.Intn(2)
 			if rnd.Intn(2) == 0 {
 				p.cancelBy, p.cancel2 = 0, 0
 				p.panicBy, p.panic2, p.panicAt = item(), item(), rnd.Intn(2)
+			}
+		case 12, 13: // back-pressure: more values in flight than the collector holds (writers parked in Write) and a
+			// reducer that stops reading early (and sometimes outlives everything that can move); one of the first
+			// mappers or the reducer cancels meanwhile
+			if !fin {
+				wc := [][2]int{{1, 1}, {2, 2}, {2, 2}, {3, 3}, {0, 1}, {-1, 1}}[rnd.Intn(6)] // option, mappers it allows (input shaping only)
+				staged := rnd.Intn(2) == 0
+				if staged {
+					wc = [][2]int{{2, 2}, {3, 3}, {4, 4}}[rnd.Intn(3)]
+				}
+				p.workers, wset = wc[0], true
+				p.nitems = wc[1] + 1 + rnd.Intn(5)
+				p.fanout = 3
+				p.redMode = 3 + rnd.Intn(2)
+				switch {
+				case staged:
+					// one of the first mappers waits until nothing else can move (writers parked, the reducer neither
+					// reading nor returning), cancels, and only then the reducer returns
+					p.redK = rnd.Intn(3)
+					p.cancelBy, p.cancelE, p.cancelAt = 1+rnd.Intn(wc[1]), errPick(), 0
+					p.stalls["red@end"] = true
+					p.stalls["1:map:"+strconv.Itoa(p.cancelBy)] = true
+				case rnd.Intn(2) == 0:
+					p.redK = 1 + rnd.Intn(wc[1]+1)
+					p.cancelBy, p.cancelE, p.cancelAt = -1, errPick(), rnd.Intn(p.redK)
+				default:
+					p.redK = rnd.Intn(3)
+					p.cancelBy, p.cancelE, p.cancelAt = 1+rnd.Intn(wc[1]), errPick(), rnd.Intn(2)
+					if rnd.Intn(3) == 0 {
+						p.cancelBy = item()
+					}
+				}
+				if !staged && rnd.Intn(2) == 0 {
+					p.stalls["red@end"] = true
+				}
 			}
 		case 10, 11: // the context ends (plus, sometimes, one more fault)
 			useCtx = !fin
 			if rnd.Intn(3) == 0 {
 				p.panicBy, p.panicAt = []int{item(), -1, -2}[rnd.Intn(3)], rnd.Intn(2)
 			} else if rnd.Intn(3) == 0 {
-				p.cancelBy, p.cancelE, p.cancelAt = item(), rnd.Intn(4), rnd.Intn(2)
+				p.cancelBy, p.cancelE, p.cancelAt = item(), errPick(), rnd.Intn(2)
 			}
 		}
 		if p.api == "chan" && p.panicBy == -2 {
@@ -408,7 +459,7 @@ func TestVerifMRStress(t *testing.T) {
 				}
 			}
 		}
-		c := newVerifMRCall(t, em, p.api, p.workers, useCtx)
+		c := newVerifMRCall(t, em, p.api, wset, p.workers, useCtx)
 		c.nitems = p.nitems
 		callSeed := rnd.Int63()
 		c.plan = func(name string, it int) []verifMROp {
@@ -434,6 +485,8 @@ func TestVerifMRStress(t *testing.T) {
 			c.endCtx()
 			c.waitReturnedOrQuiet()
 		}
+		c.openStall1()
+		c.waitReturnedOrQuiet()
 		c.finish()
 	}
 }
